@@ -25,8 +25,12 @@ class InvertedBooleanCheckTransformer(LibcstResultTransformer):
     def report_new_comparison(
         self, original_node: cst.UnaryOperation, comparison: cst.Comparison
     ) -> cst.BaseExpression:
-        if len(comparison.comparisons) == 1 and isinstance(
-            comparison.comparisons[0].operator, cst.Is
+        if len(comparison.comparisons) != 1:
+            # `not a == b == c` is not `a != b != c`: leave chained comparisons alone
+            return original_node
+
+        if isinstance(comparison.comparisons[0].operator, cst.Is) and isinstance(
+            comparison.comparisons[0].comparator, cst.Name
         ):
             # Handle 'not status is True' -> 'not status'
             if comparison.comparisons[0].comparator.value == "True":
@@ -63,8 +67,16 @@ class InvertedBooleanCheckTransformer(LibcstResultTransformer):
                     new_operator = cst.GreaterThan()
                 case cst.GreaterThanEqual():
                     new_operator = cst.LessThan()
+                case cst.In():
+                    new_operator = cst.NotIn()
+                case cst.NotIn():
+                    new_operator = cst.In()
+                case cst.Is():
+                    new_operator = cst.IsNot()
+                case cst.IsNot():
+                    new_operator = cst.Is()
                 case _:
-                    new_operator = comparison_op
+                    new_operator = comparison_op.operator
 
             inverted_comparisons.append(
                 comparison_op.with_changes(operator=new_operator)
